@@ -489,7 +489,7 @@ Proof. intro H. rewrite <- (firstn_skipn n l). apply in_or_app. now right. Qed.
 
 Lemma perturb_list_In {A} p (l : list A) x : In x (perturb_list p l) -> In x l.
 Proof.
-  destruct p as [|i|i|i|i|i n]; cbn [perturb_list]; intro H; auto.
+  destruct p as [|i|i|i|i|i n|i]; cbn [perturb_list]; intro H; auto.
   - apply in_app_or in H. destruct H; [eapply In_firstn|eapply In_skipn]; eauto.
   - apply in_app_or in H. destruct H; [eapply In_firstn|eapply In_skipn]; eauto.
   - destruct (skipn (N.to_nat i) l) as [|a [|b r]] eqn:E; auto.
@@ -499,6 +499,9 @@ Proof.
     apply in_app_or in H. destruct H as [H|[<-|[]]]; auto. eapply nth_error_In; eauto.
   - apply in_app_or in H. destruct H as [H|H]; auto.
     eapply In_skipn, In_firstn; eauto.
+  - assert (D : forall y, In y (firstn (S (N.to_nat i)) l ++ skipn (N.to_nat i) l) -> In y l).
+    { intros y Hy. apply in_app_or in Hy. destruct Hy; [eapply In_firstn|eapply In_skipn]; eauto. }
+    apply D. apply in_app_or in H. destruct H; [eapply In_firstn|eapply In_skipn]; eauto.
 Qed.
 
 Lemma seqN_ge s n x : In x (seqN s n) -> (s <= x)%N.
